@@ -664,6 +664,35 @@ def _ancestors_of(n: ast.AST):
         n = parent(n)
 
 
+def rule_sec_prefix(ctx: Ctx, rep: Report) -> None:
+    """C04.sec_prefix: libsecp256k1 parses the hybrid 0x06/0x07 SEC prefixes and
+    `point_from_octets` refuses them (hybrid="no" is the library's default).
+    Where one arm is handed a key's SEC octets raw and the other reads the same
+    key as a parsed point, the raw arm refuses every prefix outside 02/03/04
+    first -- else a hybrid key is accepted with the bindings and refused
+    without them."""
+    rule = "C04.sec_prefix"
+    n = 0
+    for fi, call in _bindings_calls(ctx):
+        raw = [a for a in call.args if isinstance(a, ast.Attribute) and a.attr == "sec"]
+        if not raw:
+            continue
+        base = norm(raw[0].value)
+        if not any(isinstance(x, ast.Attribute) and x.attr == "point" and norm(x.value) == base for x in own_nodes(fi.node)):
+            continue
+        n += 1
+        g = ctx.cfg(fi)
+        from sa.ranges import refusal_constraints
+        cs = refusal_constraints(ctx, fi)
+        guards = [c for c in cs if str(c.subject) == f"{base}.sec[0]" and c.op == "not in" and isinstance(c.value, frozenset) and c.value <= frozenset({2, 3, 4}) and not c.from_fact]
+        ids = [c.test_id for c in guards if c.test_id >= 0]
+        ok = bool(ids) and g.path_avoiding(g.nodes_containing(call), ids) is None
+        rep.ob(rule, f"{fi.qualname}:{norm(call.func)}({base}.sec)", ok, fi.where(call),
+               "prefixes outside 02/03/04 are refused before the raw octets reach the bindings" if ok else
+               f"`{base}.sec` reaches the bindings unparsed while the other arm reads `{base}.point`: a hybrid 0x06/0x07 key is accepted on this arm and refused on that one")
+    rep.floor(rule, 1)
+
+
 def rule_predicate_args(ctx: Ctx, rep: Report) -> None:
     """C04.predicate_args: the predicate is asked with the hash function wherever
     one is in scope, and a class that keeps a token decides its arm once."""
@@ -701,9 +730,12 @@ RULES = [
     ("C04.expressible", rule_expressible),
     ("C04.predicate_args", rule_predicate_args),
     ("C04.verification_class", rule_verification_failure_class),
+    ("C04.sec_prefix", rule_sec_prefix),
 ]
 
 CONTROLS = [
+    {"rule": "C04.sec_prefix", "name": "the taproot tweak hands a hybrid key to the bindings (F17)", "module": "btclib.script.taproot",
+     "edit": lambda ctx: M.drop_if(ctx, "btclib.script.taproot._tweaked_pubkey", lambda n: "pub_key.sec[0] not in" in norm(n.test))},
     {"rule": "C04.verification_class", "name": "an infinite K is asked for its y (F15)", "module": "btclib.ecc.ssa",
      "edit": lambda ctx: M.drop_if(ctx, "btclib.ecc.ssa._assert_as_valid_", lambda n: "KJ[2] == 0" in norm(n.test))},
     {"rule": "C04.single_door", "name": "dh imports the bindings directly", "module": "btclib.ecc.dh",
